@@ -108,7 +108,7 @@ Definition child_head (c : construct) : option sop :=
 
 (* operator pairs (o, o2) with  x o (y o2 z) = (x o y) o2 z  in SQLite's semantics (laws: Proofs/SqlLaws.v) *)
 Definition reassoc_ok : list (sop * sop) :=
-  [(SAdd, SAdd); (SAdd, SSub); (SMul, SMul); (SAnd, SAnd); (SOr, SOr)].
+  [(SAdd, SAdd); (SAdd, SSub); (SMul, SMul); (SAnd, SAnd); (SOr, SOr); (SConcat, SConcat)].
 Definition pair_in (p : sop * sop) (l : list (sop * sop)) : bool :=
   existsb (fun q => sop_eqb (fst p) (fst q) && sop_eqb (snd p) (snd q)) l.
 
